@@ -104,6 +104,11 @@ def export_trace(tid: str, events: list[dict], keep=TLC_EVENT_KEYS) -> list[str]
     """Turn recorded events into NDJSON lines for TraceCheck.tla."""
     lines = []
     for ev in events:
+        # of the reports, only the failure of a step is a logged critical section
+        if ev["ev"] == "report" and ev.get("tag") == "FAIL" and "task" in ev:
+            lines.append(json.dumps({"ev": "report_fail", "tid": tid, "k": len(lines) + 1, "task": ev["task"], "step": ev.get("step", "")},
+                                    separators=(",", ":"), sort_keys=True))
+            continue
         if ev["ev"] not in keep:
             continue
         rec = dict(ev)
